@@ -277,6 +277,8 @@ def gen_cases(tier, seed):
         cases.append({"kind": "rand", "seed": [int(seed), 2, i], "count": 6})
     for i in range(8 if tier == "quick" else 40):
         cases.append({"kind": "probe", "seed": [int(seed), 3, i], "count": 8})
+    # the smallest circuit of all: no elements (its header-carrying serialisation '!V=1![]' takes a path of its own in the parser)
+    cases.append({"kind": "tree", "tree": {"t": "S", "c": []}, "decimals": [1, 12, 17], "variants": G.single_flag_variants()})
     return cases
 
 
